@@ -353,6 +353,12 @@ def _gen_sys_case(rng, max_nodes, with_restart=True):
         if with_restart and r < 0.15 and not has_susp:
             ops.append(f"R:{x}")
             continue
+        # a spawn that lands while the subtree is in the middle of its stop: issued from inside a PostStop,
+        # targeting the stopping actor itself or one of its stopping ancestors; it must not leave a survivor
+        if rng.random() < 0.35:
+            v = rng.choice([y for y in sc.sub(x) if y in sc.running])
+            path = [v] + [a for a in sc.ancestors(v) if a in sc.sub(x)]
+            ops.append(f"H:{v}:{rng.choice(path)}:{new()}")
         if r < 0.45 or (x in sc.suspended and r < 0.65):
             ops.append(f"K:{x}")
         elif r < 0.65:
@@ -386,6 +392,11 @@ def _resolve_cases():
 
 
 SYS_FIXED = [
+    # SpawnChild from inside a PostStop, on an actor that is in the middle of its stop: refused, nobody survives
+    "sys S:a1 C:a1:a2 H:a2:a1:a3 K:a1",
+    "sys S:a1 C:a1:a2 C:a2:a3 H:a3:a1:a4 P:a1",
+    "sys S:a1 H:a1:a1:a2 Q:a1",
+    "sys S:a1 C:a1:a2 C:a1:a3 H:a3:a3:a4 T:a1:a3",
     # suspended actors (failed, no supervisor directive) are stopped with their subtree like any other
     "sys S:a1 C:a1:a2 C:a2:a3 S:a4 F:a2 W:a4:a2 K:a1",
     "sys S:a1 C:a1:a2 F:a2 T:a1:a2 C:a2:a3",
@@ -697,7 +708,7 @@ def tag(case, impl):
     if f[0] == "resolve":
         return "resolve:" + ("panic" if impl and "panic" in impl else "ok")
     if f[0] == "sys":
-        kinds = sorted({t.split(":")[0] for t in f[1:]} & set("KPQTRZ"))
+        kinds = sorted({t.split(":")[0] for t in f[1:]} & set("KPQTRZH"))
         return "sys:" + "".join(kinds) + (":inconclusive" if impl and _inconclusive(impl) else "")
     return f[0]
 
@@ -707,7 +718,7 @@ def shrink(case):
     if f[0] == "sys":
         ops = f[1:]
         for i in range(len(ops) - 1, -1, -1):
-            if ops[i][0] in "WUKPQTRZF" and len(ops) > 1:
+            if ops[i][0] in "WUKPQTRZFH" and len(ops) > 1:
                 yield " ".join(["sys"] + ops[:i] + ops[i + 1:])
         return
     if f[0] != "tree":
